@@ -205,7 +205,7 @@ def _gme(test, rule, nontriv):
                        dict(pkg="./conc", test=test.replace("Test", "TestConc"), replay_key="goroutines", quick_checks=150, thorough_checks=7000)],
                 quick=dict(checks=350, shards=4, timeout=900),
                 thorough=dict(checks=14000, shards=12, timeout=10800),
-                rule="rapid-generated histories over a real GCPMultiEndpoint and four in-memory (bufconn) gRPC servers: option sets with 1-3 named MultiEndpoints over shared endpoints "
+                rule="rapid-generated histories over a real GCPMultiEndpoint and six in-memory (bufconn) gRPC servers (two of them have a comma in their address): option sets with 1-3 named MultiEndpoints over shared endpoints "
                      "(add/remove/rename MultiEndpoints, add/remove/reorder endpoints, change default), endpoint outages and recoveries (dialer refuses + live connections closed), RPCs (unary and stream) "
                      "with no / known / unknown MultiEndpoint name; a recording interceptor appended in DialFunc tells which pool every RPC entered. " + rule +
                      " Non-trivial = " + nontriv + "; distinct = FNV-1a of the canonical JSON of the case. One shard in four runs concurrent workloads instead (engine conc, instrumented sources with "
